@@ -9,7 +9,7 @@ RULE = ("random workloads with up to 3 tokens (totals 1-4, requests 1-total) x r
 
 
 def prove(ctx):
-    _sched.prove(ctx, MODULES)
+    _sched.prove(ctx, MODULES, extra_msgs=[c08files.translate(ctx)])
 
 
 def correspond(ctx):
